@@ -76,3 +76,59 @@ fn c17_key_escaped_non_ascii_character() {
     assert_eq!(by_class("##.\\😀 > div", "😀"), vec![".\\😀 > div".to_string()]);
     assert_eq!(by_class("##.x\\é\\31 y", "xé1y"), vec![".x\\é\\31 y".to_string()]);
 }
+
+// Set-level model written from the statement: for every ordered selection of rules from a pool whose leading names are
+// known by construction, the lookup returns exactly the pool selectors of the list whose leading name is asked for
+// (each once, whatever else the list holds and in whatever order it was loaded), minus the excepted ones, and none of
+// them appears in the per-site set.
+/// OBL C17.witness.rule_sets_model
+#[test]
+fn c17_rule_sets_equal_the_model() {
+    // (selector, is_class, leading name)
+    let pool: [(&str, bool, &str); 12] = [
+        (".ad", true, "ad"), (".ad.banner", true, "ad"), (".ad[data-slot]", true, "ad"), (".ad:not(.x)", true, "ad"), (".ad > div", true, "ad"),
+        (".ads", true, "ads"), ("#ad", false, "ad"), ("#ad.banner", false, "ad"), ("#ad[data-slot]", false, "ad"), ("#ad #b", false, "ad"),
+        (".banner", true, "banner"), ("#ad:hover", false, "ad"),
+    ];
+    let names = ["ad", "ads", "banner", "b"];
+    let mut n = 0;
+    for i in 0..pool.len() {
+        for j in 0..pool.len() {
+            for k in 0..pool.len() {
+                if i == j || j == k || i == k {
+                    continue;
+                }
+                let chosen = [pool[i], pool[j], pool[k]];
+                let rules: Vec<String> = chosen.iter().map(|c| format!("##{}", c.0)).collect();
+                let e = Engine::from_rules(rules.iter().map(|s| s.as_str()), ParseOptions::default());
+                let site = e.url_cosmetic_resources("https://example.com/").hide_selectors;
+                for exc_sel in [None, Some(chosen[0].0), Some(chosen[2].0)] {
+                    let exc: HashSet<String> = exc_sel.iter().map(|s| s.to_string()).collect();
+                    for name in names {
+                        for class_query in [true, false] {
+                            let mut want: Vec<String> =
+                                chosen.iter().filter(|c| c.1 == class_query && c.2 == name && Some(c.0) != exc_sel).map(|c| c.0.to_string()).collect();
+                            want.sort();
+                            let mut got = if class_query {
+                                e.hidden_class_id_selectors([name], Vec::<&str>::new(), &exc)
+                            } else {
+                                e.hidden_class_id_selectors(Vec::<&str>::new(), [name], &exc)
+                            };
+                            got.sort();
+                            n += 1;
+                            assert!(
+                                got == want,
+                                "rules {rules:?}, exceptions {exc:?}: looking up {} {name:?} gave {got:?}, the statement demands {want:?}",
+                                if class_query { "class" } else { "id" }
+                            );
+                        }
+                    }
+                }
+                for c in chosen {
+                    assert!(!site.contains(c.0), "rules {rules:?}: {:?} is reachable by name and must not be in the per-site set {site:?}", c.0);
+                }
+            }
+        }
+    }
+    assert!(n > 30_000, "grid shrank to {n}");
+}
